@@ -113,7 +113,7 @@ def scan_units():
         if base.endswith("_fwd.hh"):
             continue
         s = open(f).read()
-        structs = [x for x in re.findall(r"struct (\w+) : ", s) if not x.endswith("Label")]
+        structs = [x for x in re.findall(r"struct (\w+)\s*:\s", s) if not x.endswith("Label")]
         makers = dict((t, n) for n, t in re.findall(r"constexpr auto (\w+) = QuantityMaker<(\w+)>", s))
         sing = dict((t, n) for n, t in re.findall(r"constexpr auto (\w+) = SingularNameFor<(\w+)>", s))
         sym = dict((t, n) for n, t in re.findall(r"constexpr auto (\w+) = SymbolFor<(\w+)>", s))
@@ -126,6 +126,12 @@ def scan_units():
             if t in ("Celsius", "Fahrenheit"):
                 mk = {"Celsius": "celsius_qty", "Fahrenheit": "fahrenheit_qty"}[t]
             out.append(LibUnit("au/units/" + base, t, mk, sing.get(t), sym.get(t), pts.get(t), labels[0] if labels and t != "Rankines" else None))
+    # a unit header from which no unit could be read would silently shrink every workload built on this table
+    seen = {u.header for u in out}
+    missed = [os.path.basename(f) for f in sorted(glob.glob(os.path.join(core.INC, "au", "units", "*.hh")))
+              if not f.endswith("_fwd.hh") and "au/units/" + os.path.basename(f) not in seen]
+    if missed:
+        raise core.Inconclusive(f"unit table scan: no unit recognised in {missed} (the scanner's patterns need updating)")
     return out
 
 
